@@ -274,6 +274,25 @@ def run_case(case, ctx):
         if isinstance(budget, str):
             t = need_of(ctx, src, na) if entry == 'eval' else None
             budget = None if t is None else max(1, t + {'T': 0, 'T+1': 1, 'T-1': -1, 'T-2': -2, 'T-3': -3}[budget])
+        if entry == 'eval' and hash((src, len(trail))) % 6 == 0:
+            # the rarely used ast_names argument: trees the host parsed itself (with the same parser), several of them from identical text
+            t1, t2 = [('[]', '[]'), ('{}', '{}'), ('[1, 2]', '[1, 2]'), ('v => [v]', 'v => [v]'), ('[]', '[] ')][hash(src) % 5]
+            prog = ['push(seen, 1)\nqueue', 'seen["k"] = 1\nqueue', 'push(seen, 3)\n[seen, queue]', '[seen(1), queue(2)]', 'push(seen, 1)\nqueue'][hash(src) % 5]
+            outs = []
+            for X, n in ((A, na), (B, nb)):
+                try:
+                    an = {'seen': X.parse(t1), 'queue': X.parse(t2)}
+                    v = X.eval(prog, n, an, budget if budget is not None else 100)
+                    outs.append(('ok', norm_value(v), norm_value(n)))
+                except RecursionError:
+                    outs.append(('recursion',))
+                except Exception as e:
+                    outs.append(('exc', '%s: %s' % (type(e).__name__, ADDR.sub('0x', str(e))[:200]), norm_value(n)))
+            ctx.count('ast_names_calls_compared')
+            if outs[0] != outs[1] and ('recursion',) not in outs:
+                ctx.violation('eval with ast_names behaves differently on the parser with a cache', case,
+                              detail={'cache': kind, 'program': prog, 'ast_names_texts': [t1, t2], 'budget': budget, 'without_cache': repr(outs[0])[:300], 'with_cache': repr(outs[1])[:300]})
+                return
         oa, va = call(A, entry, src, na if entry == 'eval' else None, budget)
         ob, vb = call(B, entry, src, nb if entry == 'eval' else None, budget)
         ctx.evaluations += 1
